@@ -1,0 +1,20 @@
+//go:build verif
+
+package hclsyntax
+
+// VerifHook, when set, observes internal events of the parser and of splat
+// evaluation. It exists only in builds with the "verif" tag and is used by
+// external conformance checking; it must be set before any concurrent use.
+//
+// Events: "peeker.push"/"peeker.pop" (arg: the newline flag), "peeker.assert"
+// (arg: stack depth), "parser.recovery", "anon.pre" (arg: "read", "set" or
+// "clear"; called before the values lock is taken), "anon.read", "anon.set",
+// "anon.clear" (called while the values lock is held, after the map access;
+// arg: the value, or nil when absent).
+var VerifHook func(ev string, obj, ctx, arg any)
+
+func verifHook(ev string, obj, ctx, arg any) {
+	if h := VerifHook; h != nil {
+		h(ev, obj, ctx, arg)
+	}
+}
